@@ -188,5 +188,12 @@ int main()
         else if (!line.empty()) ops.push_back(line);
     }
     flush();
-    return 0;
+    std::fflush(stdout);
+    // The static BlockAllocSafe_set<Entry<CK,int>>::allocator of this translation unit is
+    // destroyed AFTER the library's static defaultMemoryManager (src/Common/MEM/Memory.cpp);
+    // its destructor then calls IMemoryManager::get().free() on a destroyed object ("pure
+    // virtual method called", abort at process exit).  That is a static-destruction-order
+    // problem of the allocator, not of set/map (both containers are destroyed inside
+    // runCase): skip the static destructors.
+    _exit(0);
 }
